@@ -416,6 +416,39 @@ class SAConc:
         i = (s_ + b'\0').find(bytes([c & 255]))
         return [Outcome(ret=fs(ptr_add(p, i)) if i >= 0 else fs(0))]
 
+    def _copy(self, E, dst, src, n):
+        from qv.esp import ptr_add
+        data = self.mem(E, src, n) if isinstance(n, int) and 0 <= n <= 4096 else None
+        if data is None or not (isinstance(dst, tuple) and dst[0] == '&'):
+            return None
+        sets = {}
+        for k, b in enumerate(data):
+            q = ptr_add(dst, k) or (dst if k == 0 else None)
+            if q is None:
+                return None
+            sets[q[1]] = fs(b - 256 if b >= 128 else b)
+        return sets
+
+    def prim_byte_copy(self, E, x, args):
+        sets = self._copy(E, _one(args[0]), _one(args[2]), _one(args[1]))
+        if sets is None:
+            return None
+        for p_, v_ in sets.items():
+            self.on_assign(E, x, p_, v_)
+        return [Outcome(ret=TOP, sets=sets)]
+
+    prim_byte_copyr = prim_byte_copy
+
+    def prim_memcpy(self, E, x, args):
+        sets = self._copy(E, _one(args[0]), _one(args[1]), _one(args[2]))
+        if sets is None:
+            return None
+        for p_, v_ in sets.items():
+            self.on_assign(E, x, p_, v_)
+        return [Outcome(ret=args[0], sets=sets)]
+
+    prim_memmove = prim_memcpy
+
     def prim_byte_equal(self, E, x, args):
         n = _one(args[1])
         a = self.mem(E, _one(args[0]), n) if isinstance(n, int) else None
@@ -712,3 +745,90 @@ def sig_blocknone_sites(db, rep, prog):
     ok = len(calls) == 1 and calls[0][0] == SIG_SETMASK and calls[0][1]
     return {'sig_blocknone:sets-the-empty-mask': (ok, calls[0][2] if calls else 'sig_block.c:sig_blocknone',
             'the mask operations are %s (how, empty set); documented: one sigprocmask(SIG_SETMASK = 2, empty set): with SIG_UNBLOCK or SIG_BLOCK of the empty set an inherited mask survives and a blocked SIGALRM never ends a stalled qmail-queue' % [(c[0], c[1]) for c in calls], [])}
+
+
+# =============================================================================== getln / getln2
+class GetlnHooks(SAConc, Conc):
+    """getln() over a scripted byte source with a 4-byte input buffer: the line handed back and the reservations made for it"""
+    def __init__(self, chunks):
+        Conc.__init__(self, 'getln')
+        self.chunks = chunks
+        self.over = None
+
+    def on_call(self, E, x, args):
+        if x.callee is None:          # s->op(fd, buf, len)
+            from qv.esp import ptr_add
+            k = one(E.get('$k')) or 0
+            if k >= len(self.chunks):
+                return [Outcome(ret=fs(0), log='read -> 0 (end of file)')]
+            data = self.chunks[k]
+            want = one(args[2])
+            if not isinstance(want, int) or want < len(data):
+                raise AnalysisBroken('getln: the input buffer is asked for %s bytes, the script hands out %d' % (want, len(data)))
+            bp = one(args[1])
+            sets = {'$k': fs(k + 1)}
+            for i, b in enumerate(data):
+                sets[ptr_add(bp, i)[1]] = fs(b)
+            return [Outcome(ret=fs(len(data)), sets=sets, log='read -> %r' % data)]
+        return super().on_call(E, x, args)
+
+    def _cap(self, E, obj):
+        return one(E.get('$cap:' + obj)) or 0
+
+    def prim_stralloc_ready(self, E, x, args):
+        sa, n = one(args[0]), one(args[1])
+        return [Outcome(ret=fs(1), sets={sa[1] + '.s': fs(('&', sa[1] + '.s[0]')), '$cap:' + sa[1]: fs(max(self._cap(E, sa[1]), n))})]
+
+    def prim_stralloc_readyplus(self, E, x, args):
+        sa, n = one(args[0]), one(args[1])
+        ln = one(E.get(sa[1] + '.len')) or 0
+        return [Outcome(ret=fs(1), sets={sa[1] + '.s': fs(('&', sa[1] + '.s[0]')), '$cap:' + sa[1]: fs(max(self._cap(E, sa[1]), ln + n))})]
+
+    def _put(self, E, x, args, data, append):
+        outs = SAConc._put(self, E, x, args, data, append)
+        sa = one(args[0])
+        if outs and outs[0].sets and isinstance(sa, tuple):
+            outs[0].sets['$cap:' + sa[1]] = fs(max(self._cap(E, sa[1]), one(outs[0].sets.get(sa[1] + '.len')) or 0))
+        return outs
+
+    def on_assign(self, E, x, path, val):
+        import re as _re
+        m = _re.match(r'^(SA)\.s\[(\d+)\]$', path or '')
+        if m and int(m.group(2)) >= self._cap(E, m.group(1)) and self.over is None:
+            self.over = (int(m.group(2)), self._cap(E, m.group(1)), x.where, E.trace.list())
+
+    def inline(self, fn, depth):
+        return fn.name not in ('stralloc_ready', 'stralloc_readyplus', 'stralloc_catb', 'stralloc_copyb', 'stralloc_append') and Conc.inline(self, fn, depth)
+
+
+def getln_sites(db, rep, prog):
+    """getln(): the line is handed back whole whatever its length relative to the input buffer, and it is written only into space reserved for it"""
+    fn = db.fn('getln.c', 'getln')
+    bad = {}
+    n = 0
+    for line, rest, terminated in ((b'ab', b'z', True), (b'abcdefghijk', b'zz', True), (b'abcdefghijklmnopqrs', b'', True), (b'', b'x', True), (b'abcdefghij', b'', False), (b'abcdef', b'', False)):
+        data = line + (b'\n' if terminated else b'') + rest
+        chunks = [data[i:i + 4] for i in range(0, len(data), 4)]
+        H = GetlnHooks(chunks)
+        e = Engine(db, prog, H, max_states=120000)
+        fid = e.frame_id(fn)
+        st = {'%s::%s' % (fid, fn.params[0]): fs(('&', 'SS')), '%s::%s' % (fid, fn.params[1]): fs(('&', 'SA')), '%s::%s' % (fid, fn.params[2]): fs(('&', 'MATCH')),
+              '%s::%s' % (fid, fn.params[3]): fs(10), 'SS.x': fs(('&', 'X[0]')), 'SS.p': fs(0), 'SS.n': fs(4), 'SS.fd': fs(3), 'SS.op': fs(('fn', 'OP')), 'SA.len': fs(0)}
+        for k in range(4):
+            st['X[%d]' % k] = fs(0)
+        e.run(fn, st)
+        rep.count_states(e.states, e.transitions)
+        n += 1
+        if len(H.ends) != 1:
+            raise AnalysisBroken('getln: %d ends for the input %r' % (len(H.ends), data))
+        store, val, tr = H.ends[0]
+        ln = one(store.get('SA.len'))
+        got = bytes((one(store.get('SA.s[%d]' % k)) or 0) & 255 for k in range(ln)) if isinstance(ln, int) and 0 <= ln < 64 else None
+        want = line + (b'\n' if terminated else b'')
+        if (got != want or one(store.get('MATCH')) != (1 if terminated else 0) or one(val) != 0) and 'getln:the-line-is-handed-back-whole' not in bad:
+            bad['getln:the-line-is-handed-back-whole'] = ('input %r through a 4-byte buffer: getln() hands back %r (match=%s, result %s); documented %r (match=%d)' %
+                                                          (data, got, one(store.get('MATCH')), one(val), want, 1 if terminated else 0), tr)
+        if H.over and 'getln:bytes-are-stored-only-into-reserved-space' not in bad:
+            bad['getln:bytes-are-stored-only-into-reserved-space'] = ('input %r through a 4-byte buffer: byte %d of the line is stored while %d byte(s) are reserved (%s)' % (data, H.over[0], H.over[1], H.over[2]), H.over[3])
+    return {k: (k not in bad, 'getln2.c:getln2', bad[k][0] if k in bad else '%d inputs' % n, bad[k][1] if k in bad else [])
+            for k in ('getln:the-line-is-handed-back-whole', 'getln:bytes-are-stored-only-into-reserved-space')}
